@@ -314,8 +314,6 @@ PROPS = {
                    "in file order and the record read back for every imported node is the node of the file, deletion mark included (c15_import_stored, c15_children_order); exporting any imported node again returns the pre-order list the file's own "
                    "parent pointers describe (c15_reexport) — which is the file itself whenever the file is the traversal of its own tree, a decidable property the driver evaluates on every exported file (SelfRebuilding) instead of a theorem about exportFrom. "
                    "Trees that contain a mirror are covered by the correspondence run only. The YAML text is not modelled.",
-                   "leaves exactly one new edge per node in file order and that the record exportNodesHelper reads back for every imported node is the node of the file, deletion mark included (c15_import_stored, c15_children_order). "
-                   "Not stated as one theorem: that the recursive traversal of those records and child lists re-assembles the same pre-order list, and trees that contain a mirror; both are covered by the correspondence run. The YAML text is not modelled.",
     },
     "C02": {
         "required_theorems": ["c02_no_write_lost", "c02_points_converge", "c02_exchange_converges_on_stores", "c02_equal_hash_is_skipped", "gen_sync_pinned"],
